@@ -17,6 +17,7 @@ def setFlag (fl : Flags) (kv : String) : Flags :=
   | ["merkle", v] => { fl with merkleAlwaysCompared := bit v }
   | ["loc", v] => { fl with inputLocationSigned := bit v }
   | ["win", v] => { fl with windowChecked := bit v }
+  | ["nospv", v] => { fl with fullBlockNoSpv := bit v }
   | _ => fl
 
 /-- value of `key=` among the tokens -/
